@@ -690,9 +690,12 @@ def rule_groebner(repo: Repo) -> List[Ob]:
             kw = {k.arg: k.value for k in call.keywords}
             order = kw.get("order")
             order_ok = order is None or (isinstance(order, ast.Constant) and order.value == "lex")
-            if len(star) != 1:
+            if not order_ok:
                 obs.append(Ob("F-groebner", key, fn.relpath, call.lineno, fn.qualname, False,
-                              "generator order of groebner() cannot be read (expected `groebner(F, *gens)`)"))
+                              f"non-lex monomial order {src(order)}: the filtered basis is not an elimination ideal"))
+                continue
+            if len(star) != 1:
+                obs.append(inconclusive("F-groebner", key, fn.relpath, call.lineno, fn.qualname, "generator order of groebner() not readable (expected `groebner(F, *gens)`)"))
                 continue
             gens_e = star[0].value
             # full definition of the generator list
@@ -718,8 +721,7 @@ def rule_groebner(repo: Repo) -> List[Ob]:
                                 continue
                         forb.add(_strip(side, defs))
             if not forb:
-                obs.append(Ob("F-groebner", key, fn.relpath, call.lineno, fn.qualname, False,
-                              "no filter on the eliminated symbols after groebner()"))
+                obs.append(inconclusive("F-groebner", key, fn.relpath, call.lineno, fn.qualname, "filter on the eliminated symbols not recognised"))
                 continue
             k = len(forb)
             prefix = set(gens[:k])
@@ -873,12 +875,12 @@ def _t_wrapper_fix():
 
 
 RULES = {
-    "SAMPLERS": Rule("F-sampler", rule_samplers, 16, "scipy sampler arguments denote the same law as the moment side (shape, loc, scale compared as rational functions of the parameter fields)", mut_samplers),
-    "ENUM": Rule("F-enumeration", rule_enumeration, 9, "discrete supports, samplers and moment sums enumerate the same values; probabilistic choice samples branch i with probability i", mut_enumeration),
-    "ROOTS": Rule("F-rootsource", rule_roots, 3, "every source of characteristic roots is complete (all_roots / intervals(all=True) / roots only below degree 5)", mut_roots),
+    "SAMPLERS": Rule("F-sampler", rule_samplers, 16, "scipy sampler arguments denote the same law as the moment side (shape, loc, scale compared as rational functions of the parameter fields)", mut_samplers, soft=True),
+    "ENUM": Rule("F-enumeration", rule_enumeration, 9, "discrete supports, samplers and moment sums enumerate the same values; probabilistic choice samples branch i with probability i", mut_enumeration, soft=True),
+    "ROOTS": Rule("F-rootsource", rule_roots, 3, "every source of characteristic roots is complete (all_roots / intervals(all=True) / roots only below degree 5)", mut_roots, soft=True),
     "NULLSPACE": Rule("F-nullspace", rule_nullspace, 1, "a rational kernel basis (Matrix.nullspace) is never truncated to integers", mut_nullspace),
-    "GROEBNER": Rule("F-groebner", rule_groebner, 2, "groebner() eliminates exactly the symbols that are filtered afterwards: they form the generator prefix under lex order", mut_groebner),
-    "CFMGF": Rule("A4-cf-mgf", rule_cf_mgf, 8, "cf(t) == mgf(i t) for every family that defines both (exact rational-function comparison over Q[i])", mut_cf_mgf),
+    "GROEBNER": Rule("F-groebner", rule_groebner, 2, "groebner() eliminates exactly the symbols that are filtered afterwards: they form the generator prefix under lex order", mut_groebner, soft=True),
+    "CFMGF": Rule("A4-cf-mgf", rule_cf_mgf, 8, "cf(t) == mgf(i t) for every family that defines both (exact rational-function comparison over Q[i])", mut_cf_mgf, soft=True),
 }
 
 
@@ -905,9 +907,12 @@ def rule_rational_lattice(repo: Repo) -> List[Ob]:
             pairs = pairs and isinstance(inner.target, ast.Name) and {src(a.slice) if isinstance(a, ast.Subscript) else "?", src(b.slice) if isinstance(b, ast.Subscript) else "?"} == {outer.target.id, inner.target.id}
         if not pairs:
             pairs = any(isinstance(c, ast.Call) and call_name(c) == "combinations" and len(c.args) == 2 and src(c.args[1]) == "2" for c in walk_no_nested(f.node))
-        ok = pairs
-        why = "every pair i < j is tested with gcd(a_i, a_j) == 1" if ok else "the gcd test does not range over all pairs i < j"
-    obs.append(Ob("F-rational-lattice", "utils/expressions.py::are_coprime::pairwise", f.relpath, f.node.lineno, f.qualname, ok, why if not ok or True else ""))
+        ok = True if pairs else None
+        why = "every pair i < j is tested with gcd(a_i, a_j) == 1" if ok else "iteration over all pairs i < j not recognised"
+    if ok is None:
+        obs.append(inconclusive("F-rational-lattice", "utils/expressions.py::are_coprime::pairwise", f.relpath, f.node.lineno, f.qualname, why))
+    else:
+        obs.append(Ob("F-rational-lattice", "utils/expressions.py::are_coprime::pairwise", f.relpath, f.node.lineno, f.qualname, ok, why))
     # (b) the integer kernel is computed with integral, unimodular row operations
     cls = repo.cls("ExponentLattice", "invariants/exponent_lattice.py")
     rat = cls.methods.get("compute_basis_rational")
@@ -948,8 +953,11 @@ def rule_rational_lattice(repo: Repo) -> List[Ob]:
             if isinstance(e, ast.ListComp):
                 it = e.generators[0].iter
                 okk = isinstance(it, ast.Subscript) and isinstance(it.slice, ast.Slice) and it.slice.lower is not None and src(it.slice.lower) == piv and it.slice.upper is None
-        obs.append(Ob("F-rational-lattice", f"{g.relpath}::{g.qualname}::kernel-rows", g.relpath, g.node.lineno, g.qualname, okk,
-                      f"the kernel basis is read off the rows from `{piv}` on (those whose equation block vanished)" if okk else "the kernel rows are not `rows[pivot counter:]`"))
+        if okk:
+            obs.append(Ob("F-rational-lattice", f"{g.relpath}::{g.qualname}::kernel-rows", g.relpath, g.node.lineno, g.qualname, True,
+                          f"the kernel basis is read off the rows from `{piv}` on (those whose equation block vanished)"))
+        else:
+            obs.append(inconclusive("F-rational-lattice", f"{g.relpath}::{g.qualname}::kernel-rows", g.relpath, g.node.lineno, g.qualname, "selection of the kernel rows not recognised"))
     return obs
 
 
@@ -992,7 +1000,7 @@ def mut_rational_lattice(repo: Repo) -> List[Mutant]:
     return out
 
 
-RULES["RATLATTICE"] = Rule("F-rational-lattice", rule_rational_lattice, 3, "rational exponent lattice: the no-relation shortcut needs pairwise coprimality; the kernel is computed by integral row operations scanning from the pivot counter", mut_rational_lattice)
+RULES["RATLATTICE"] = Rule("F-rational-lattice", rule_rational_lattice, 3, "rational exponent lattice: the no-relation shortcut needs pairwise coprimality; the kernel is computed by integral row operations scanning from the pivot counter", mut_rational_lattice, soft=True)
 
 
 # ------------------------------------------------------------------ C06: exponent bases and their symbols stay aligned; closed forms are stored under the goal's own name
@@ -1018,15 +1026,22 @@ def rule_invariant_inputs(repo: Repo) -> List[Ob]:
         return None
     sb, ss = shape(lat[0].args[0]), shape(ide[0].args[1])
     ok = sb is not None and ss is not None and sb[0] == ss[0] and sb[1] == "keys" and ss[1] == "values" and sb[2] == ss[2] == []
-    obs.append(Ob("F-invariant-inputs", "invariants/invariant_ideal.py::InvariantIdeal.compute_basis::aligned", f.relpath, lat[0].lineno, f.qualname, ok,
+    if not ok and not (sb is not None and ss is not None and sb[0] == ss[0] and sb[2] != ss[2]):
+        obs.append(inconclusive("F-invariant-inputs", "invariants/invariant_ideal.py::InvariantIdeal.compute_basis::aligned", f.relpath, lat[0].lineno, f.qualname,
+                                f"construction of bases `{src(lat[0].args[0])}` / symbols `{src(ide[0].args[1])}` not recognised"))
+    else:
+      obs.append(Ob("F-invariant-inputs", "invariants/invariant_ideal.py::InvariantIdeal.compute_basis::aligned", f.relpath, lat[0].lineno, f.qualname, ok,
                   "exponent bases and their symbols are the keys and values of one dict in the same (insertion) order: component i of a lattice vector belongs to symbol i" if ok else
                   f"bases are `{src(lat[0].args[0])}` ({sb}) but symbols are `{src(ide[0].args[1])}` ({ss}): reordering only one of them pairs lattice exponents with the wrong sequences"))
     # the lattice basis of exactly these bases feeds the ideal
     a0 = ide[0].args[0]
     feeds = isinstance(a0, ast.Call) and call_name(a0) == "compute_basis" and defs.origin_field(a0.func.value) is None and \
         (a0.func.value is lat[0] or (isinstance(a0.func.value, ast.Name) and any(v is lat[0] for v in defs.defs.get(a0.func.value.id, []))))
-    obs.append(Ob("F-invariant-inputs", "invariants/invariant_ideal.py::InvariantIdeal.compute_basis::lattice-feeds-ideal", f.relpath, ide[0].lineno, f.qualname, feeds,
-                  "the binomial ideal is built from the lattice basis of the same bases" if feeds else "LatticeIdeal is not built from ExponentLattice(bases).compute_basis()"))
+    if feeds:
+        obs.append(Ob("F-invariant-inputs", "invariants/invariant_ideal.py::InvariantIdeal.compute_basis::lattice-feeds-ideal", f.relpath, ide[0].lineno, f.qualname, True,
+                      "the binomial ideal is built from the lattice basis of the same bases"))
+    else:
+        obs.append(inconclusive("F-invariant-inputs", "invariants/invariant_ideal.py::InvariantIdeal.compute_basis::lattice-feeds-ideal", f.relpath, ide[0].lineno, f.qualname, "flow from ExponentLattice to LatticeIdeal not recognised"))
     # goal kinds and the identifiers their closed forms are stored under
     gp = repo.function("inputparser/goal_parser.py", "GoalParser.parse")
     letter_kind: Dict[str, str] = {}
@@ -1098,4 +1113,4 @@ def mut_invariant_inputs(repo: Repo) -> List[Mutant]:
     return out
 
 
-RULES["INVINPUTS"] = Rule("F-invariant-inputs", rule_invariant_inputs, 5, "exponent bases and symbols are aligned (keys/values of one dict); closed forms are stored under the identifier of their own goal kind", mut_invariant_inputs)
+RULES["INVINPUTS"] = Rule("F-invariant-inputs", rule_invariant_inputs, 5, "exponent bases and symbols are aligned (keys/values of one dict); closed forms are stored under the identifier of their own goal kind", mut_invariant_inputs, soft=True)
